@@ -32,7 +32,7 @@ STUBS = [
 OUTSIDE = ['real OS-thread interleavings at bytecode granularity across the whole App.__call__ (the engine is single-threaded; sub-statement '
            'races are below the sequentializer\'s granularity)', 'C-level lru_cache internals and the get_header name cache under threads',
            'more than 3 concurrent requests / 2 pre-emptions']
-BUDGET = {'quick': 300, 'thorough': 2400}
+BUDGET = {'quick': 300, 'thorough': 900}
 
 
 # ---------------------------------------------------------------- (A) ASGI tasks
